@@ -26,7 +26,8 @@
 (*                                                                         *)
 (* Deliberate don't-care (DontCare below): a line in which an IPv6 token   *)
 (* that is not a tail form is directly followed by '.' - there the result  *)
-(* depends on the image's last group (DESIGN.md 3.2).                      *)
+(* depends on the image's last group (DESIGN.md 3.2).  A '%zone' after an  *)
+(* address is ordinary text outside the token: it must be copied.          *)
 (***************************************************************************)
 EXTENDS Naturals, Sequences, FiniteSets, TLC
 
@@ -141,9 +142,8 @@ Tokens4(s) == {r \in {<<i, RunEnd(s, i, Run4)>> : i \in RunStarts(s, Run4)} :
                  Valid4(SubSeq(s, r[1], r[2])) /\ ~Inside6(s, r)}
 
 \* an IPv6 token (not a tail form) directly followed by '.': result depends on the image
-\* ... or any IPv6 token directly followed by '%' (zone identifier; may or may not be kept)
-DontCare(s) == \/ \E r \in Plain6Tokens(s) : r[2] < Len(s) /\ s[r[2] + 1] = Dot
-               \/ \E r \in Tokens6(s) : r[2] < Len(s) /\ s[r[2] + 1] = 37
+\* ('%' is an ordinary delimiter: a zone identifier after an address is text outside the token and is copied)
+DontCare(s) == \E r \in Plain6Tokens(s) : r[2] < Len(s) /\ s[r[2] + 1] = Dot
 
 \* sorted token list of the families that are switched on: <<start, end, family>>
 RECURSIVE SortTokens(_)
